@@ -47,10 +47,12 @@ def log(*a):
 
 
 # ----------------------------------------------------------------------------------------------- build
-def _hash_tree():
+def _hash_tree(sources=None):
+    """Content hash of the repository's headers, the simulator's headers and the given sources (default: every source of the main simulator)."""
     h = hashlib.sha256()
     files = sorted(glob.glob(os.path.join(REPO, 'include', 'amc', '*.hpp')))
-    files += sorted(glob.glob(os.path.join(ROOT, 'sim', '*.[ch]pp')) + glob.glob(os.path.join(ROOT, 'sim', 'tus', '*.[ch]pp')))
+    files += sorted(glob.glob(os.path.join(ROOT, 'sim', '*.hpp')) + glob.glob(os.path.join(ROOT, 'sim', 'tus', '*.hpp')))
+    files += sorted(sources if sources is not None else sim_sources())
     for f in files:
         h.update(os.path.relpath(f, '/').encode())
         with open(f, 'rb') as fh:
@@ -91,7 +93,7 @@ def sim_sources(vec_only=False):
 def build(variant='plain', quiet=False):
     """Build (or reuse) the simulator for the *current* working tree of the repository. Returns the binary path."""
     v = VARIANTS[variant]
-    h = _hash_tree()
+    h = _hash_tree(sim_sources(v.get('vec_only', False)))
     h.update(json.dumps([variant, v['cxx'], v['flags'], v['ld']]).encode())
     key = h.hexdigest()[:20]
     os.makedirs(BUILD, exist_ok=True)
@@ -144,7 +146,7 @@ def build(variant='plain', quiet=False):
 
 def build_aux(name, sources, cxx, flags, ld=(), quiet=True):
     """Build a small auxiliary binary (memalgo, portable, sched) keyed by the same content hash. Returns its path."""
-    h = _hash_tree()
+    h = _hash_tree(list(sources))
     h.update(json.dumps([name, cxx, list(flags), list(ld), [os.path.basename(s) for s in sources]]).encode())
     key = h.hexdigest()[:20]
     os.makedirs(BUILD, exist_ok=True)
